@@ -445,6 +445,7 @@ func (e *Env) GenOp(t *rapid.T) Op {
 		}
 		if n > 0 && n <= 6 && uni(t, 30, "oversize") == 29 {
 			op.Oversize = 1 + uni(t, n, "oversize_at")
+			op.Split = rapid.Bool().Draw(t, "split")
 		}
 		return op
 	case "delete":
